@@ -413,6 +413,7 @@ class Cx:
         self.fn = []             # stack of (path, qualname)
         self.in_loop = 0
         self.loop_exits = []
+        self.own_written = {}    # attr -> the fresh per-usage-pattern dict this rule has just stored into self.<attr>
 
     def ctldeps(self):
         """control context as references tagged 'c' (4-tuples), so that data and control dependencies stay apart:
@@ -703,6 +704,8 @@ class Interp:
             cx.unknown.append(f"super().{e.attr} unresolved in {cx.where()[1]}")
             return raw(deg={})
         b = self.ev(e.value, env, cx)
+        if b.k == "obj" and b.is_self and e.attr in cx.own_written and isinstance(e.value, ast.Name) and e.value.id == "self":
+            return cx.own_written[e.attr]
         if b.k == "obj":
             return self.attr_on(b, e.attr, cx, e)
         if b.k == "E":
@@ -1575,6 +1578,12 @@ class Interp:
                         valdeps=v.deps | cx.ctldeps(), ctl=cx.ctldeps(), value=v)
             site.alts = tuple((a, d | cx.ctldeps()) for a, d in alts_of(v)) if v.k == "E" else None
             cx.writes.setdefault(tg.attr, []).append(site)
+            if v.k == "E" and v.fresh and "EDICT" in (v.ek or ()):
+                # a fresh per-usage-pattern dict installed by this rule: reading self.<attr> back (to fill it through a
+                # local name) gives this very object, not the attribute's previous value
+                cx.own_written[tg.attr] = v
+            else:
+                cx.own_written.pop(tg.attr, None)
         elif isinstance(tg, ast.Attribute) and self.ev(tg.value, env, cx).k == "rec":
             # a field of a (mutable) record: the record stands for every element of the list it sits in, so the field
             # keeps what it held and gains the new value
@@ -1601,6 +1610,16 @@ class Interp:
             base = tg.value
             while isinstance(base, (ast.Attribute, ast.Subscript)):
                 base = base.value
+            if isinstance(tg.value, ast.Name) and tg.value.id in env:
+                own = next((a_ for a_, ov in cx.own_written.items() if ov is env[tg.value.id]), None)
+                if own is not None:
+                    # `d = self.<attr>` (the dict this rule has just installed) … `d[key] = v` is `self.<attr>[key] = v`
+                    v2 = add_deps(v, i.deps)
+                    site = Site("write", stmt, where[1], where[0], target=own, parents=v2.anc,
+                                valdeps=v2.deps | cx.ctldeps(), ctl=cx.ctldeps(), value=v2)
+                    site.alts = tuple((a, d | cx.ctldeps()) for a, d in alts_of(v2)) if v2.k == "E" else None
+                    cx.writes.setdefault(own, []).append(site)
+                    return
             bv = self.ev(tg.value, env, cx)
             if bv.k in ("E", "raw") and (not bv.fresh or bv.shares):
                 cx.frame_stores.append((stmt, where, bv))
